@@ -216,8 +216,13 @@ def main(argv):
     known = {e.get("class_tag"): e for e in c.open_known(PID)}
     reproduces = {cls: probe(h, cls) for cls in PROBES}
     # which proposed repairs are present in the tree under test (decides which version of the model is compared)
-    flags = {"parens": not any(reproduces[k] for k in PARENS_CLASSES),
-             "quote": not reproduces["quote"], "dominus": not reproduces["do-minus"]}
+    # A repair that is recorded as fixed (no open entry) is compared strictly against the repaired model;
+    # while an entry is open, the probes decide (so a tree with or without the proposed patch both check).
+    def repaired(classes):
+        if not any(k in known for k in classes):
+            return True
+        return not any(reproduces[k] for k in classes)
+    flags = {"parens": repaired(PARENS_CLASSES), "quote": repaired(["quote"]), "dominus": repaired(["do-minus"])}
     open_classes = {cls for cls in PROBES if reproduces[cls] and cls in known}
     unlisted = [cls for cls in PROBES if reproduces[cls] and cls not in known]
 
@@ -321,6 +326,14 @@ def main(argv):
     evgen = Gen(rng, allow_fail=False)
     evprogs = ["\n".join(evgen.program(3 + rng.below(6))) for _ in range(300 if tier == "quick" else 4000)]
     fcases = []
+    # corpus: minimized cases of every finding and of earlier failures of proposed fixes (run first)
+    cdir = os.path.join(c.VERIF, "corpus", PID)
+    for fn in sorted(os.listdir(cdir)) if os.path.isdir(cdir) else []:
+        if fn.endswith(".json"):
+            with open(os.path.join(cdir, fn)) as f:
+                cc = json.load(f)
+            fcases.append((cc["source"], cc.get("width", 0)))
+    n_corpus = len(fcases)
     for s in fam:
         for w in WIDTHS_QUICK:
             fcases.append((s, w))
@@ -394,7 +407,7 @@ def main(argv):
             classify_and_report("format", pairs[k][0], 0, cl, {"binary_output": pairs[k][1][:2000], "reparse": eqs[k]},
                                 "cli-binary")
     n_eval += len(cli_cases)
-    res.streams["FORMAT-search"] = {"print_depth3_all": len(ex3), "format_cases": len(fcases), "verdicts": verdicts,
+    res.streams["FORMAT-search"] = {"print_depth3_all": len(ex3), "format_cases": len(fcases), "corpus_cases": n_corpus, "verdicts": verdicts,
                                     "evaluation_same": ev_same, "evaluation_diff": ev_diff,
                                     "cli_binary_cases": len(cli_cases), "cli_same": cli_ok, "cli_diff": cli_bad,
                                     "cli_input_rejected": cli_rej,
